@@ -15,6 +15,7 @@ import (
 	"time"
 
 	corev1 "k8s.io/api/core/v1"
+	apierrors "k8s.io/apimachinery/pkg/api/errors"
 	metav1 "k8s.io/apimachinery/pkg/apis/meta/v1"
 	"k8s.io/apimachinery/pkg/runtime"
 	"k8s.io/apimachinery/pkg/watch"
@@ -36,7 +37,7 @@ type ListFault struct {
 
 // WatchFault describes what one Watch call does.
 //
-//	Kind: "" follow forever | "error" connect error | "block" connect blocks until ctx cancelled |
+//	Kind: "" follow forever | "error" connect error | "expired" connect error 410 Gone (StatusError) | "block" connect blocks until ctx cancelled |
 //	      "close" close the stream after After frames | "drop" silently drop frame number After (0-based) |
 //	      "dup" deliver frame number After twice | "status" insert a Status frame before frame After |
 //	      "bookmark" insert a Bookmark frame before frame After | "errorframe" insert an Error frame (Status object) before frame After | "errorframe-obj" / "errorframe-nil" Error frame with an ordinary object / no payload |
@@ -84,6 +85,10 @@ func New() *Server {
 	vs.RegisterObj(s)
 	return s
 }
+
+// SetStartRV makes the server's resource versions start above n (call before anything else): histories can then
+// cross a digit boundary (9 -> 10), where comparing versions as strings goes wrong.
+func (s *Server) SetStartRV(n int) { s.rv = n }
 
 func key(ns, name string) string { return ns + "/" + name }
 
@@ -315,18 +320,28 @@ func (s *Server) Watch(ctx context.Context, opts metav1.ListOptions) (watch.Inte
 		if f, ok = s.WatchFaults[n]; !ok {
 			f = s.DefaultWatch
 		}
-		s.WatchFailed = append(s.WatchFailed, f.Kind == "error")
+		s.WatchFailed = append(s.WatchFailed, f.Kind == "error" || f.Kind == "expired")
 	})
 	switch f.Kind {
 	case "error":
 		return nil, ErrInjected
+	case "expired":
+		// 410 Gone as a connect error: "too old resource version" (the caller must not silently start from "now")
+		return nil, apierrors.NewResourceExpired("too old resource version: " + opts.ResourceVersion)
 	case "block":
 		<-ctx.Done()
 		return nil, ctx.Err()
 	}
-	rv, err := strconv.Atoi(opts.ResourceVersion)
-	if err != nil {
-		return nil, fmt.Errorf("bad resourceVersion %q", opts.ResourceVersion)
+	var rv int
+	if opts.ResourceVersion == "" {
+		// no version: the stream starts at the server's current state ("from now"); nothing older is replayed
+		vs.Atomic(s, func() { rv = s.rv })
+	} else {
+		var err error
+		rv, err = strconv.Atoi(opts.ResourceVersion)
+		if err != nil {
+			return nil, fmt.Errorf("bad resourceVersion %q", opts.ResourceVersion)
+		}
 	}
 	st := &stream{s: s, ch: make(chan watch.Event), wake: make(chan struct{}, 2), stopch: make(chan struct{}), cursor: rv, fault: f, ctx: ctx}
 	vs.RegisterObj(st)
